@@ -1305,6 +1305,20 @@ fn derive_reprc_new(input: DeriveInput) -> TokenStream {
             }
 
             let mut conditions = vec![];
+            // The serialized discriminant is the index of the variant. Explicit discriminant
+            // values ('A = 5') are what is stored in memory, so the memory representation is
+            // only identical to the serialized one if each value equals the variant's index.
+            let mut discriminant_conditions = vec![];
+            if enum1.variants.iter().any(|v| v.discriminant.is_some()) {
+                if any_fields || !input.generics.params.is_empty() {
+                    return implement_reprc_hardcoded_false(name.clone(), &input);
+                }
+                for (variant_index, variant) in enum1.variants.iter().enumerate() {
+                    let var_ident = &variant.ident;
+                    let variant_index = proc_macro2::Literal::i128_unsuffixed(variant_index as i128);
+                    discriminant_conditions.push(quote!( ((#name::#var_ident as i128) == #variant_index) ));
+                }
+            }
 
             let mut min_safe_version: u32 = 0;
             let mut max_safe_version: u32 = std::u32::MAX;
@@ -1447,7 +1461,7 @@ fn derive_reprc_new(input: DeriveInput) -> TokenStream {
 
                         #packed_constraints
 
-                        if file_version >= #min_safe_version && file_version <= #max_safe_version #( && #reprc_condition)* {
+                        if file_version >= #min_safe_version && file_version <= #max_safe_version #( && #discriminant_conditions)* #( && #reprc_condition)* {
                             unsafe { #isreprc::yes() }
                         } else {
                             #isreprc::no()
